@@ -677,6 +677,65 @@ def rule_lock_scope(text, dropped):
             raise SliceError('lock-scope would add lines')
         text = text[:toks[r0].s] + new + '\n' * d + text[toks[call_close].e:]
         n += 1
+    # let-bound guards: `let [mut] NAME = RECV.write();` -- the guard lives to the end of the enclosing block unless it is
+    # dropped explicitly (`drop(NAME);`). At the top level of the extracted body that is the end of the function: the
+    # counter stays raised. In an inner block the decrement is placed before the closing brace, which is only right when
+    # the block has no tail expression (otherwise: unsupported, the extraction fails => undecided).
+    guard = 0
+    while True:
+        guard += 1
+        if guard > 20:
+            raise SliceError('lock-scope: too many let-bound guards')
+        toks, match = _stmt_tokens(text)
+        target = None
+        for i in range(len(toks) - 4):
+            if (toks[i].text == '.' and toks[i + 1].kind == 'ident' and toks[i + 1].text in ('write', 'read')
+                    and toks[i + 2].text == '(' and toks[i + 3].text == ')' and toks[i + 4].text == ';'):
+                r0 = _postfix_start(toks, match, i)
+                if r0 >= 3 and toks[r0 - 1].text == '=' and toks[r0 - 2].kind == 'ident':
+                    l = r0 - 3
+                    if toks[l].text == 'mut':
+                        l -= 1
+                    if l >= 0 and toks[l].text == 'let':
+                        target = (i, r0, toks[r0 - 2].text)
+                        break
+        if target is None:
+            break
+        i, r0, name = target
+        kind = toks[i + 1].text
+        # enclosing block: first unmatched `}` after the statement
+        depth = 0
+        close = None
+        for k in range(i + 5, len(toks)):
+            if toks[k].text in OPEN:
+                depth += 1
+            elif toks[k].text in CLOSE:
+                if depth == 0:
+                    close = k
+                    break
+                depth -= 1
+        edits = []
+        # explicit drop(NAME);
+        dropped_explicitly = False
+        for k in range(i + 5, close if close is not None else len(toks) - 3):
+            if (toks[k].text == 'drop' and toks[k + 1].text == '(' and toks[k + 2].text == name and toks[k + 3].text == ')'
+                    and k + 4 < len(toks) and toks[k + 4].text == ';'):
+                edits.append((toks[k + 4].e, ' proof { verif_locks = verif_locks - 1; }'))
+                dropped_explicitly = True
+                break
+        if not dropped_explicitly and close is not None:
+            prev = toks[close - 1].text
+            if prev not in (';', '}', '{'):
+                raise SliceError('lock-scope: a let-bound guard in an inner block with a tail expression is not supported')
+            edits.append((toks[close].s, ' proof { verif_locks = verif_locks - 1; } '))
+        edits.append((toks[i + 4].e, ' proof { verif_locks = verif_locks + 1; }'))
+        edits.append((toks[i + 1].s, None))  # rename marker
+        for off, ins in sorted(edits, key=lambda e: e[0], reverse=True):
+            if ins is None:
+                text = text[:off] + 'verif_lock_' + kind + text[off + len(kind):]
+            else:
+                text = text[:off] + ins + text[off:]
+        n += 1
     if n:
         dropped.append(('lock-scope', f'{n} lock guard scopes made explicit (guard binding + ghost counter verif_locks)'))
     return text
